@@ -184,7 +184,17 @@ fn iterate<D: TestDriver<Error = DrvErr>>(
                 let pi = sv_list(&item["inputs"]);
                 let oi: Vec<(String, Val)> = row.inputs.iter().map(|i| (i.signal.name.clone(), ival(i.value))).collect();
                 if pi != oi {
-                    out.push(Mismatch { code: "row.inputs".into(), step, expected: (*item).clone(), observed: obs });
+                    // which kind of entry differs first: the shape of the vector, the default of an input the header omits, or a value from the program
+                    let header: Vec<&str> = b["header"].as_array().map(|a| a.iter().filter_map(|h| h.as_str()).collect()).unwrap_or_default();
+                    let code = if pi.len() != oi.len() || pi.iter().zip(&oi).any(|(p, o)| p.0 != o.0) {
+                        "row.inputs.shape"
+                    } else {
+                        match pi.iter().zip(&oi).find(|(p, o)| p.1 != o.1) {
+                            Some((p, _)) if !header.contains(&p.0.as_str()) => "row.inputs.default",
+                            _ => "row.inputs",
+                        }
+                    };
+                    out.push(Mismatch { code: code.into(), step, expected: (*item).clone(), observed: obs });
                     return;
                 }
                 // the call must carry the row's inputs verbatim, changed flags included (C02)
@@ -202,8 +212,20 @@ fn iterate<D: TestDriver<Error = DrvErr>>(
                     out.push(Mismatch { code: "row.outputs.sig".into(), step, expected: (*item).clone(), observed: obs });
                     return;
                 }
-                if po.iter().zip(&oo).any(|(p, o)| p.2 != o.2) {
-                    out.push(Mismatch { code: "row.expected".into(), step, expected: (*item).clone(), observed: obs });
+                if let Some((p, _)) = po.iter().zip(&oo).find(|(p, o)| p.2 != o.2) {
+                    // the first differing expected value: of a signal without a column (always X), of a virtual signal, or from an ordinary column
+                    let header: Vec<&str> = b["header"].as_array().map(|a| a.iter().filter_map(|h| h.as_str()).collect()).unwrap_or_default();
+                    let is_virt = b["decls"].as_array().map(|a| a.iter().any(|d| d["name"].as_str() == Some(p.0.as_str()))).unwrap_or(false);
+                    let is_bidir = b["signals"].as_array().map(|a| a.iter().any(|g| g["name"].as_str() == Some(p.0.as_str()) && g["dir"] == "bidir")).unwrap_or(false);
+                    let col = if is_bidir { format!("{}_out", p.0) } else { p.0.clone() };
+                    let has_col = header.contains(&col.as_str());
+                    let code = match (has_col, is_virt) {
+                        (false, true) => "row.expected.vdefault",
+                        (false, false) => "row.expected.default",
+                        (true, true) => "row.expected.virt",
+                        (true, false) => "row.expected",
+                    };
+                    out.push(Mismatch { code: code.into(), step, expected: (*item).clone(), observed: obs });
                     return;
                 }
                 if po.iter().zip(&oo).any(|(p, o)| p.1 != o.1) {
